@@ -435,6 +435,20 @@ func Run(r *core.Run) {
 			}
 			judge(base+"/other-key/"+o.String(), it.compact, o.JWKMap(), false)
 		}
+		// the signer's own public key named in the protected header (as publicKeyJwk, jwk): the key that decides is the one the
+		// verifier was given, so under every other key of the type the JWS still fails
+		for _, member := range []string{"publicKeyJwk", "jwk"} {
+			hdr := map[string]any{"alg": it.k.Alg(), member: it.k.JWKMap()}
+			hb, _ := json.Marshal(hdr)
+			named := it.k.SignCompact(hb, it.payload)
+			for _, o := range ks {
+				if o == it.k || o.Type != it.k.Type {
+					continue
+				}
+				judge(base+"/key-named-in-header-"+member+"/other-key/"+o.String(), named, o.JWKMap(), false)
+				r.Class("key-named-in-header")
+			}
+		}
 		seg := strings.Split(it.compact, ".")
 		dec := make([][]byte, 3)
 		for i := range seg {
